@@ -18,5 +18,5 @@ cp -f "$D/evidence.bak" evidence/$ID.json 2>/dev/null
 grep -E "VIOLATION|KNOWN-FINDING|INCONCLUSIVE|^OK|^----" "$D/out.txt" | head -8
 echo "MUTANT $(basename "$PATCH") check=$ID tier=$TIER exit=$rc"
 # replays written for mutants are not kept
-git -C "$(pwd)" clean -fdq replays 2>/dev/null
+rm -rf replays/C[0-9]*
 exit 0
